@@ -101,6 +101,27 @@ impl DataLog {
             .map(|data| &data.waiters)
     }
 
+    /// QoS of a repeated subscription: the parked request of `filter`, if any, takes it over
+    pub fn update_waiter_qos(&mut self, id: ConnectionId, filter: &Filter, qos: u8) {
+        // a shared subscription `$share/<group>/<path>` waits on the log of `<path>`
+        let path = filter
+            .strip_prefix("$share/")
+            .and_then(|s| s.split_once('/'))
+            .map_or(filter.as_str(), |(_, path)| path);
+        let Some(data) = self
+            .filter_indexes
+            .get(path)
+            .and_then(|idx| self.native.get_mut(*idx))
+        else {
+            return;
+        };
+        for (conn_id, request) in data.waiters.get_mut().iter_mut() {
+            if *conn_id == id && request.filter == *filter {
+                request.qos = qos;
+            }
+        }
+    }
+
     pub fn remove_waiters_for_id(
         &mut self,
         id: ConnectionId,
